@@ -498,7 +498,9 @@ func (p *parser) parseForExpression() ast.Expression {
 			s = append(s, p.curToken.Literal)
 		}
 
-		if p.peekTokenIs(token.LBRACE) || p.peekTokenIs(token.EOF) {
+		// the names of a loop end with ")" inside the tag that opened them;
+		// do not look for it in the text and the tags that follow
+		if p.peekTokenIs(token.LBRACE) || p.peekTokenIs(token.EOF) || p.peekTokenIs(token.E_END) {
 			p.errors = append(p.errors, fmt.Sprintf("line %d: expected ) got %s", ln, p.peekToken.Literal))
 			return nil
 		}
